@@ -37,6 +37,9 @@ HI_OPS = ("readback", "getitem", "setitem", "ufunc", "reduce", "scan", "concat",
 def variants(prop, case):
     """Implementation-side realisations of one abstract case.  Level A does not distinguish them (C06)."""
     out = _variants(prop, case)
+    if out and out[0].get("via") == "flat" and len(out) > 1 and (_h(case, 11) & 1):
+        # the "freshly built" realisation alternates between the library's two constructors: flat buffer + lengths, and a list of rows
+        out = [dict(out[0], via="rows")] + out[1:]
     if case[0] in HI_OPS:
         js = json.dumps(case)
         if '"i2"' in js or '"u2"' in js:
